@@ -29,6 +29,9 @@ const (
 	// ArriveAnno on a PodGroup: the workload (pod group and its pods) is submitted only before the cycle with this
 	// number (>= 2); until then it is not in the API state
 	ArriveAnno = "verif/arrives-at-cycle"
+	// RecreatedAnno on a terminating pod: its replacement is already part of the object set (the world model does not
+	// create another one)
+	RecreatedAnno = "verif/replacement-exists"
 )
 
 // SplitArrivals separates the objects present before the first cycle from the workloads that arrive later
